@@ -129,8 +129,88 @@ func (p *Prog) AllFunctions() map[*ssa.Function]bool {
 func (p *Prog) CallGraph() *callgraph.Graph {
 	if p.cg == nil {
 		p.cg = vta.CallGraph(p.AllFunctions(), cha.CallGraph(p.SSA))
+		onceContext(p.cg)
 	}
 	return p.cg
+}
+
+// onceContext makes (*sync.Once).Do context-sensitive in the call graph. VTA resolves the `f()` inside doSlow to every
+// function that is passed to any Once in the program, so one closure that reaches the parser (say) makes every caller
+// of every Once.Do - including fmt -> time.Location.get - appear to reach the parser. The call of f is attributed to
+// the caller of Do instead: to the function it passes when that is a function constant or a closure made at the call
+// site, and to everything VTA found otherwise.
+func onceContext(cg *callgraph.Graph) {
+	var do, slow *callgraph.Node
+	for fn, n := range cg.Nodes {
+		if fn == nil || fn.Pkg == nil || fn.Pkg.Pkg.Path() != "sync" || fn.Signature.Recv() == nil {
+			continue
+		}
+		if named := NamedOf(Deref(fn.Signature.Recv().Type())); named == nil || named.Obj().Name() != "Once" {
+			continue
+		}
+		switch fn.Name() {
+		case "Do":
+			do = n
+		case "doSlow":
+			slow = n
+		}
+	}
+	if do == nil {
+		return
+	}
+	// the dynamic calls of the parameter f inside Do / doSlow
+	var all []*callgraph.Node
+	seen := map[*callgraph.Node]bool{}
+	for _, n := range []*callgraph.Node{do, slow} {
+		if n == nil {
+			continue
+		}
+		var keep []*callgraph.Edge
+		for _, e := range n.Out {
+			if e.Site != nil && e.Site.Common().StaticCallee() == nil && !e.Site.Common().IsInvoke() {
+				if !seen[e.Callee] {
+					seen[e.Callee] = true
+					all = append(all, e.Callee)
+				}
+				// unlink from the callee's In list
+				var in []*callgraph.Edge
+				for _, ie := range e.Callee.In {
+					if ie != e {
+						in = append(in, ie)
+					}
+				}
+				e.Callee.In = in
+				continue
+			}
+			keep = append(keep, e)
+		}
+		n.Out = keep
+	}
+	sort.Slice(all, func(i, j int) bool { return all[i].ID < all[j].ID })
+	for _, e := range append([]*callgraph.Edge{}, do.In...) {
+		if e.Site == nil || len(e.Site.Common().Args) < 2 {
+			continue
+		}
+		var targets []*callgraph.Node
+		switch f := e.Site.Common().Args[1].(type) {
+		case *ssa.Function:
+			if n := cg.Nodes[f]; n != nil {
+				targets = []*callgraph.Node{n}
+			}
+		case *ssa.MakeClosure:
+			if fn, ok := f.Fn.(*ssa.Function); ok {
+				if n := cg.Nodes[fn]; n != nil {
+					targets = []*callgraph.Node{n}
+				}
+			}
+		}
+		if targets == nil {
+			targets = all
+		}
+		for _, t := range targets {
+			callgraph.AddEdge(e.Caller, e.Site, t)
+		}
+	}
 }
 
 // InModule reports whether fn is defined in a package of the analysed module
@@ -316,6 +396,18 @@ func (p *Prog) FileFor(pos token.Pos) (*packages.Package, *ast.File) {
 // Callees of a call instruction according to the call graph (or the static callee).
 func (p *Prog) Callees(site ssa.CallInstruction) []*ssa.Function {
 	if f := site.Common().StaticCallee(); f != nil {
+		if f.Name() == "Do" && f.Pkg != nil && f.Pkg.Pkg.Path() == "sync" {
+			// (*sync.Once).Do: the function passed here is called too (see onceContext)
+			out := []*ssa.Function{f}
+			if n := p.CallGraph().Nodes[site.Parent()]; n != nil {
+				for _, e := range n.Out {
+					if e.Site == site && e.Callee.Func != nil && e.Callee.Func != f {
+						out = append(out, e.Callee.Func)
+					}
+				}
+			}
+			return out
+		}
 		return []*ssa.Function{f}
 	}
 	n := p.CallGraph().Nodes[site.Parent()]
